@@ -624,7 +624,7 @@ def register(gen, T):
             "modifierNeverWrapsModifier": bool(re.search(r'TypeLayer::Modifier\(modifier, inner\) => \{ assert!\(!self\.get_type_layer\(inner\)\.is_modifier\(\)\);', tyreg)),
             # every extern global is implicitly const: the outermost layer of its base type is a modifier
             "externGlobalsAreConst": bool(re.search(r'if global_storage == ir::GlobalStorage::Extern \{ ty = context\.module\.type_registry\.make_const\(ty\); \}', gt))
-                                     and bool(re.search(r'let \(base, mut modifier\) = self\.extract_modifier\(id\); if modifier\.is_const \{ id \} else \{ modifier\.is_const = true; self\.register_type\(TypeLayer::Modifier\(modifier, base\)\) \}', mk)),
+                                     and bool(re.fullmatch(r'let \(base, mut modifier\) = self\.extract_modifier\(id\); if modifier\.is_const \{ id \} else \{ modifier\.is_const = true; self\.register_type\(TypeLayer::Modifier\(modifier, base\)\) \}', mk)),
             # a typedef names the type id its declarator builds over the parsed source type: array layers of a typedef sit
             # *inside* whatever a later use wraps around the name
             "typedefNamesTheDeclaredTypeId": bool(re.search(r'let base_type = parse_type\(&td\.source, context\)\?; .*let \(type_id, scoped_name\) = parse_declarator\(&td\.declarator, base_type, None, false, context\)\?;.*context\.register_typedef\(name, type_id\)\?;', td)),
